@@ -27,6 +27,35 @@ WALK_ARMS = {  # Expr variant -> the sub-expressions that must be walked
 }
 
 
+def check_event_uniqueness(P, r6):
+    """one listener per event name and per generated identifier; shared by C12-D6 and C02-D5"""
+    cec = P.find("TypeCollector::create_event_contexts")
+    if not cec:
+        r6.bad(V(r6.id, "<anchor>", "missing:create_event_contexts", "anchor not found"))
+    else:
+        f = cec[0]
+        scope = [f] + [P.fns[k] for k in P.fns if k.startswith(f.id + "::{closure")]
+        by_name = False
+        by_fn = False
+        for g in scope:
+            for c in g.calls:
+                sp = short_path(c.path)
+                if sp in ("HashSet::insert", "HashSet::contains", "HashMap::insert", "HashMap::contains_key", "HashMap::entry", "BTreeSet::insert", "BTreeMap::entry", "HashMap::get"):
+                    t = " ".join(g.describe_origin(g.origin(a), short=False, deep=3) for a in c.args[1:2])
+                    if "EventInfo.event_name" in t:
+                        by_name = True
+                    if "ts_function_name" in t:
+                        by_fn = True
+        if by_name:
+            r6.ok("events are made unique by event name")
+        else:
+            r6.bad(V(r6.id, f.id, "no-uniqueness-by-name", "no uniqueness step keyed on EventInfo.event_name: the same event emitted twice yields two listeners"))
+        if by_fn:
+            r6.ok("generated identifiers are made unique")
+        else:
+            r6.bad(V(r6.id, f.id, "no-uniqueness-by-identifier", "no uniqueness step keyed on the generated function name: `ev-one` and `ev_one` both become onEvOne"))
+
+
 def check(ctx):
     P = ctx.P
     S = ctx.S
@@ -282,31 +311,7 @@ def check(ctx):
               "between the discovered events and the listener template there is a uniqueness step keyed on the event name and one keyed on the "
               "generated function identifier",
               "the same event emitted from several places (or two names that mangle alike) exports the same function twice")
-    cec = P.find("TypeCollector::create_event_contexts")
-    if not cec:
-        r6.bad(V(r6.id, "<anchor>", "missing:create_event_contexts", "anchor not found"))
-    else:
-        f = cec[0]
-        scope = [f] + [P.fns[k] for k in P.fns if k.startswith(f.id + "::{closure")]
-        by_name = False
-        by_fn = False
-        for g in scope:
-            for c in g.calls:
-                sp = short_path(c.path)
-                if sp in ("HashSet::insert", "HashSet::contains", "HashMap::insert", "HashMap::contains_key", "HashMap::entry", "BTreeSet::insert", "BTreeMap::entry", "HashMap::get"):
-                    t = " ".join(g.describe_origin(g.origin(a), short=False, deep=3) for a in c.args[1:2])
-                    if "EventInfo.event_name" in t:
-                        by_name = True
-                    if "ts_function_name" in t:
-                        by_fn = True
-        if by_name:
-            r6.ok("events are made unique by event name")
-        else:
-            r6.bad(V(r6.id, f.id, "no-uniqueness-by-name", "no uniqueness step keyed on EventInfo.event_name: the same event emitted twice yields two listeners"))
-        if by_fn:
-            r6.ok("generated identifiers are made unique")
-        else:
-            r6.bad(V(r6.id, f.id, "no-uniqueness-by-identifier", "no uniqueness step keyed on the generated function name: `ev-one` and `ev_one` both become onEvOne"))
+    check_event_uniqueness(P, r6)
     r6.require_floor(2, "uniqueness steps")
     rules.append(r6)
 
